@@ -119,7 +119,7 @@ func H_C10_file_save() {
 			return
 		}
 		verifAssert(err == nil, "success returns nil")
-		verifAssert(found && content == expected, "saved file holds exactly the rendered output")
+		verifAssert(found && content == expected, "on success the saved file holds exactly the rendered output")
 		return
 	}
 	if renderFails {
